@@ -1,0 +1,32 @@
+//! Accessors to the private per-section validators of `config/raft.rs` for out-of-tree Kani
+//! harnesses (child module, so it can call the private `validate` fns).
+//! Compiled ONLY under `--cfg kani`. Thin wrappers, no logic.
+use super::BatchingConfig;
+use super::ElectionConfig;
+use super::ReadConsistencyConfig;
+use super::ReplicationConfig;
+use super::SnapshotConfig;
+use crate::Result;
+
+pub fn election_validate(c: &ElectionConfig) -> Result<()> {
+    c.validate()
+}
+
+pub fn replication_validate(c: &ReplicationConfig) -> Result<()> {
+    c.validate()
+}
+
+pub fn batching_validate(c: &BatchingConfig) -> Result<()> {
+    c.validate()
+}
+
+pub fn snapshot_validate(c: &SnapshotConfig) -> Result<()> {
+    c.validate()
+}
+
+pub fn read_consistency_validate(
+    c: &ReadConsistencyConfig,
+    election_timeout_min: u64,
+) -> Result<()> {
+    c.validate(election_timeout_min)
+}
